@@ -997,7 +997,9 @@ def concretize(obj, model):
         v = model.eval(obj.e, model_completion=True)
         if z3.is_rational_value(v):
             fr = fractions.Fraction(v.numerator_as_long(), v.denominator_as_long())
-            return _float(fr) if fr.denominator in (1, 2, 4, 5, 8, 10, 16, 20, 25, 40, 50, 100, 200, 1000) else {"num": fr.numerator, "den": fr.denominator, "approx": _float(fr)}
+            if fr.denominator == 1:
+                return fr.numerator
+            return {"num": fr.numerator, "den": fr.denominator, "approx": _float(fr)}
         return _str(v)
     if isinstance(obj, SymFloat):
         v = model.eval(obj.e, model_completion=True)
